@@ -11,7 +11,7 @@ LEVEL_NOTE = [
     "A2: `re` semantics of the four numeric patterns (hand-specialised matchers in the model)",
 ]
 PARTIAL = [
-    "C11.char_valid / char_escape_valid / string_valid are proved (plain characters, simple escapes, opaque string bodies, every encoding prefix); C11_float_valid, octal/hex escapes, string bodies with escapes and the per-family C11_F_reported theorems are not proved yet: they are decided per input by the correspondence and by the independent recogniser below; closed witnesses of each malformed family are proved by kernel evaluation in Properties/C11.lean",
+    "C11.float_valid (decimal floating constants of every shape), char_valid / char_escape_valid / string_valid are proved (plain characters, simple escapes, opaque string bodies, every encoding prefix); hexadecimal floats, octal/hex escapes, string bodies with escapes and the per-family C11_F_reported theorems are not proved yet: they are decided per input by the correspondence and by the independent recogniser below; closed witnesses of each malformed family are proved by kernel evaluation in Properties/C11.lean",
 ]
 
 ISUF = ["", "u", "U", "l", "L", "ll", "LL", "z", "Z", "wb", "WB", "i64", "I64", "ul", "uL", "Ul", "UL", "lu", "lU", "Lu", "LU",
